@@ -68,6 +68,9 @@ def opOfJ (j : J) : Option Op := do
   | "setkey" => do pure (.setKey (← key) (← v))
   | "delkey" => do pure (.delKey (← key))
   | "append" => do pure (.append (← v))
+  | "extend" => do
+    let vs ← (j.getArr? "vs")
+    pure (.extend (← vs.mapM treeOfJ))
   | "rebind" => do
     let ps ← (j.getArr? "pairs")
     let pairs ← ps.mapM (fun it => match it with
